@@ -4,11 +4,12 @@ MC : DataUriGen    - generator of data URIs (media type list x {;base64, none} x
                      x kinds of registered minifier.  Invariants: the design model DataUriDesign.Design (helper as
                      intended, with the proposed fixes) satisfies the abstract relation DataUriOK (D => A), is
                      idempotent, the TLA+ codecs round-trip, and the transcription of the pinned code
-                     (DataUriAsIs) violates the relation only on the narrow constructs of the pinned findings.
+                     (DataUriAsIs) violates the relation only on the narrow construct of the open finding K4;
+                     the pre-fix transcription is kept as a wrong-design guard (ASSUMEs).
      DataUriHdrGen - the same for the header syntax space (token sequences between "data:" and the comma).
      MediatypeGen  - generator of media type strings (quotes, backslash, blanks, separators, both cases) with the
-                     design models of minify.Mediatype (MtMachine: AsIs index-safe and wrong only on the known
-                     constructs, Fixed correct everywhere) and sanity invariants of MediatypeOK.
+                     design models of minify.Mediatype (MtMachine: AsIs = current code, correct everywhere;
+                     OldAsIs = pre-fix code, wrong only on the K6 constructs: wrong-design guard) and sanity invariants of MediatypeOK.
 GEN: state dumps of the three generators (exhaustive within the bound), TLC -simulate walks over all 256 byte
      values to length 48, every byte value 0..255 in several spellings, malformed forms, the repository's tests.
 RUN: harness/cmd/c18 calls the real minify.DataURI (no minifier / identity / shrinking / growing stub / real css,
@@ -95,64 +96,20 @@ def split_uri(u):
 
 
 def excluded_datauri(u, reg):
-    """name of the pinned known-finding construct this input belongs to, or None"""
-    if any(r['stub'] == 'grow3' for r in reg):
-        return 'K5b small growth by the registered minifier'
+    """name of the pinned known-finding construct this input belongs to, or None.
+    Only K4 is left (K1, K2, K3, K5, K6 are fixed in /repo and generated again)."""
     sp = split_uri(u)
     if sp is None:
         return None
     mt, b64, raw = sp
-    if not b64 and b'+' in raw:
-        return 'K1 literal + in a percent-form payload'
-    if not b64 and b'&' in raw:
-        return 'K5a literal & in a percent-form payload'
     segs = [s.strip(WS) for s in mt.split(b';')]
     if any(x.strip(WS) == b'base64' for s in segs for x in s.split(b'=')):
         return 'K4 base64 token that is not the final ;base64 marker'
-    if segs[0] == b'' and any(s and s.lower().replace(b' ', b'') != b'charset=us-ascii' for s in segs[1:]):
-        return 'K2 parameters after an omitted media type'
-    t = segs[0].lower()
-    if t.startswith(b'text/plain') and len(t) > len(b'text/plain'):
-        return 'K3 type that merely starts with text/plain'
     return None
-
-
-def rfc_modes(b):
-    """0 outside, 1 inside a quoted string, 2 directly after a backslash inside one (per byte, on entry)"""
-    out, mode = [], 0
-    for c in b:
-        out.append(mode)
-        if mode == 0:
-            mode = 1 if c == 34 else 0
-        elif mode == 1:
-            mode = 2 if c == 92 else (0 if c == 34 else 1)
-        else:
-            mode = 1
-    return out
 
 
 def excluded_mediatype(b):
-    b = bytes(b)
-    modes = rfc_modes(b)
-    # K6b: an escaped quote inside a quoted string (quoted-pair)
-    for i, c in enumerate(b):
-        if modes[i] == 1 and c == 92 and i + 1 < len(b) and b[i + 1] == 34:
-            return 'K6b escaped quote inside a quoted string'
-    # K6a: >= 2 blanks removed, then two quoted strings with no blank between them, upper case inside
-    # the stretch of the first string that the second lower-casing pass overlaps
-    removed, prev_close, blank_since = 0, None, True
-    for i, c in enumerate(b):
-        if modes[i] == 0 and c in WS:
-            removed += 1
-            blank_since = True
-        elif modes[i] == 0 and c == 34:
-            if prev_close is not None and not blank_since and removed >= 2:
-                lo = max(0, prev_close + 1 - removed)
-                if any(modes[k] != 0 and 65 <= b[k] <= 90 for k in range(lo, prev_close + 1)):
-                    return 'K6a adjacent quoted strings after two removed blanks'
-        elif modes[i] == 1 and c == 34:
-            prev_close, blank_since = i, False
-    return None
+    return None          # nothing excluded any more (K6a / K6b fixed by 0042ee0)
 
 
 # ---- registrations --------------------------------------------------------------------------------
@@ -183,7 +140,8 @@ def low_type(u):
 
 STUBS_FOR = {
     'text/x': [[reg('literal', 'text/x', 'id')], [reg('literal', 'text/x', 'shrink')],
-               [reg('literal', 'text/x', 'grow64')], [reg('regexp', '^text/[a-z]+$', 'shrink')]],
+               [reg('literal', 'text/x', 'grow64')], [reg('regexp', '^text/[a-z]+$', 'shrink')],
+               [reg('literal', 'text/x', 'grow3')]],
     'text/plain': [[reg('literal', 'text/plain', 'shrink')], [reg('regexp', '^text/[a-z]+$', 'id')],
                    [reg('literal', 'text/plain', 'grow64')]],
     'text/css': [[reg('literal', 'text/css', 'css')], [reg('regexp', 'css$', 'css'), reg('literal', 'text/x', 'id')]],
@@ -373,10 +331,6 @@ def make_cases(ctx, cs, lap):
         os.remove(mdump + '.dump')
         if len(mstrings) != r['distinct']:
             raise vlib.Infra('dump of MediatypeGen has %d states, TLC reported %d' % (len(mstrings), r['distinct']))
-        # the python copy of the known-construct predicate (used beyond the dump) must agree with the TLA+ one
-        for sx, k in mstrings:
-            if (excluded_mediatype(sx) is not None) != k:
-                raise vlib.Infra('python and TLA+ disagree on the known construct for %r' % sx)
         msims = sim_states(ctx, 'MediatypeGen', 'MediatypeGen_sim.cfg', 25 if quick else 500, 49, parse_s_dump, 'mt')
         return mstrings, msims
 
@@ -730,8 +684,9 @@ def run(ctx):
         process(ctx, exe, st, cases, 'b%d' % nbatch[0])
         lap('batch %d validated (%d lines so far, %d rejected)' % (nbatch[0], st.lines, st.rejected))
     cs = Cases(sink)
-    # pinned witnesses of known findings: replayed on every run, each in a harness process of its own; their lines are
-    # validated by the TLC run of the relation self-test
+    # pinned witnesses (of the open finding K4 and, as regression cases, of the fixed findings): replayed on every run,
+    # each in a harness process of its own; their lines are validated by the TLC run of the relation self-test; a rejected
+    # one is a KNOWN-FINDING if its key is listed in known/C18.txt, else a VIOLATION
     pinned = [case_from_ident(k) for k in vlib.known_cases('C18')]
     l2 = []
     for n, c in enumerate(pinned):
@@ -745,8 +700,6 @@ def run(ctx):
             if k in why2:
                 still += 1
                 ctx.report(ident(c), describe(c, json.loads(l2[k]), sorted(set(why2[k]))), replay_obj=json.loads(l2[k]))
-            else:
-                vlib.log('note: pinned witness no longer rejected (fixed?):', S(c['in']))
     q = ctx.quick()
     ctx.coverage.update(dict(
         traces_validated_against_impl=st.accepted,
@@ -763,7 +716,8 @@ def run(ctx):
              'MediatypeGen), -simulate walks to 48 bytes, seeded strings of 6..14 bytes, strings around the 1024 byte mark, and '
              'a sample through the HTML type attribute. A case is (fn, channel, input bytes, registrations); non-trivial = the '
              'helper returned bytes different from its input or a registered minifier ran. Excluded from generation (narrow '
-             'constructs of pinned known findings, decided on the input only): %s'
+             'construct of the one open known finding K4, decided on the input only; the constructs of the fixed findings K1, K2, '
+             'K3, K5, K6 are generated again): %s'
              % (3 if q else 4, 6 if q else 40, 3 if q else 5, '4 (and a seeded 20% of length 5)' if q else '6 (and a seeded 30% of length 7)',
                 '; '.join('%s (%d inputs)' % kv for kv in sorted(cs.excluded.items())) or 'none'),
         samples=st.samples or [dict(note='no sampled line changed')],
@@ -778,7 +732,7 @@ def run(ctx):
         rejections_reproduced=st.confirmed,
         pinned_witnesses=len(pinned),
         pinned_still_failing=still,
-        design_drift=dict(st.drift, compared='every line' if not q else 'every 4th line', note='lines on which the transcription of the pinned code (DataUriAsIs.AsIsNone for calls without a minifier / '
+        design_drift=dict(st.drift, compared='every line' if not q else 'every 4th line', note='lines on which the transcription of the current code (DataUriAsIs.AsIsNone for calls without a minifier / '
                                          'MtMachine.AsIs) predicts other bytes than the code returned; information, never a verdict',
                           samples=st.drift_samples),
     ))
@@ -791,9 +745,10 @@ def run(ctx):
         'urlchar = RFC 2396 reserved|unreserved|escaped; "&" may additionally be escaped',
         'an opening quote that is never closed is malformed: from there on the media type relation only demands the "only" reading',
         'embedded channels: the URL is recovered from the host output by a purpose-written url() scanner / golang.org/x/net/html',
-        'DataUriDesign.Design / MtMachine.Fixed describe the helpers as intended (with the proposed fixes) and are model-checked '
-        'against the relation; DataUriAsIs / MtMachine.AsIs transcribe the pinned code: TLC proves they violate the relation only '
-        'on the excluded constructs within the bound, and every recorded call is compared with them (design_drift)',
+        'DataUriDesign.Design describes the data URI helper as intended and is model-checked against the relation; DataUriAsIs / '
+        'MtMachine.AsIs transcribe the current code: TLC proves they violate the relation only on the K4 construct (Mediatype: '
+        'nowhere) within the bound, and every recorded call is compared with them (design_drift); the pre-fix transcriptions '
+        '(OldUri, OldAsIs) are kept as wrong-design guards that the relation must still reject',
     ]
 
 
@@ -811,7 +766,7 @@ def replay(ctx, obj):
 
 META = dict(
     category='model_checking',
-    text='TLC model-checks design models of both helpers (as intended, and transcriptions of the pinned code) against the abstract '
+    text='TLC model-checks design models of both helpers (as intended, and transcriptions of the current and of the pre-fix code) against the abstract '
          'RFC 2397 relation DataUriOK / MediatypeOK over every data URI of the generators (media type spellings x base64/percent x '
          'payloads over a small alphabet x five kinds of registered minifier; header token sequences; media type strings over '
          'quotes/backslash/blanks/case), and evaluates that relation - RFC 2397 parser, percent- and base64-decoding, media type '
@@ -820,6 +775,6 @@ META = dict(
          'TLC -simulate walks over all 256 byte values and the repository inputs beyond it.',
     design_ref='DESIGN.md section 4, C18',
     note='Trusted: TLC, spec/DataUri.tla as the meaning of a data URI / media type string (decoders cross-checked against the Go '
-         'standard library on every line). Known findings are pinned in known/C18.*; their narrow input constructs are not generated.',
+         'standard library on every line). The one open finding (K4) is pinned in known/C18.*, its narrow input construct is not generated; the witnesses of the fixed findings are replayed as regression cases.',
     technique='TLA+ generator + design model checked against the abstract relation; TLC trace validation of recorded calls',
 )
